@@ -270,6 +270,34 @@ def judge_table(ctx, model, ids, sem, route, witness):
     return bad is None
 
 
+def _structure(c, depth=0):
+    if adapters.is_leaf(c) or depth > 40:
+        return ("leaf", c.id, int(c.bounds.lower), int(c.bounds.upper))
+    return (c.id, int(c.sign), int(c.value), int(c.bounds.lower), int(c.bounds.upper), tuple(sorted(repr(_structure(x, depth + 1)) for x in c.propositions)))
+
+
+def same_argument_twice(rec):
+    """every argument of every connective of the recipe built ON ITS OWN: two arguments of one connective that come out with the same id and the
+    same structure all the way down are one argument written twice (a duplicate child: an ill-defined model by C10), however differently
+    they were spelled (Xor / ExactlyOne, Not(threshold) / the negated threshold, ...). The object built from the whole recipe is not consulted:
+    copies that the library itself makes inside one argument are its own doing and are judged."""
+    for n in refmodel.recipe_nodes(rec):
+        if n["k"] in ("var", "str", "ref", "neg") or len(n.get("args", [])) < 2:
+            continue
+        seen = set()
+        for a in n["args"]:
+            if a["k"] in ("var", "str"):
+                continue
+            try:
+                st = repr(_structure(recipes.fresh(recipes.strip(a))))
+            except Exception:      # noqa
+                continue
+            if st in seen:
+                return True
+            seen.add(st)
+    return False
+
+
 def ast_well_formed(rec):
     ids = [n["id"] for n in refmodel.recipe_nodes(rec) if n.get("id") and n["k"] not in ("var", "str")]
     if len(ids) != len(set(ids)):
@@ -296,6 +324,8 @@ def shape_key(a):
         args[0] = {"k": "All", "id": None, "args": [args[0]]}          # a bare condition / negated leaf is wrapped in All(leaf) by the library
     ch = tuple(sorted(map(repr, (shape_key(x) for x in args))))
     k = a["k"]
+    if k == "ExactlyOne":
+        k = "Xor"          # ExactlyOne is a subclass of Xor that builds the same proposition (same generated id)
     n = len(a["args"])
     sg = lambda v, s_: int(s_) if s_ is not None else (1 if v > 0 else -1)          # the sign the constructor derives when none is passed
     norm = {"All": ("AL", n, sg(n, None)), "Any": ("AL", 1, 1)}.get(k)
@@ -436,6 +466,11 @@ def run_case(case, ctx):
             # explicit ids, no sharing) must evaluate like its truth function even if two sub-formulas collide on a generated id
             if not ast_well_formed(rec):
                 ctx.count("not-validated:" + route)
+                continue
+            if same_argument_twice(rec):
+                # two arguments of one connective that, each built on its own, are the same proposition (same id, same structure all the way down):
+                # one argument written twice, however differently spelled; same id with DIFFERENT structures is a collision and is judged
+                ctx.count("not-validated(same argument twice, as built):" + route)
                 continue
             ctx.count("count:judged-although-errors()-nonempty")
         for n in nodes:
